@@ -14,4 +14,5 @@ let table : (string * (Model.sexp -> Model.sexp)) list = [
   "c16f", Model.c16f_check;
   "c11", Model.c11_check;
   "c11a", Model.c11a_check;
+  "c10t", Model.c10t_check;
 ]
